@@ -366,6 +366,21 @@ func (c *c17ctx) query() {
 			if err := safely(func() error { return got.DecodeAware(r, rev) }); err == nil || isPanic(err) {
 				return fmt.Errorf("DecodeAware below 54429 returned %v, want the documented refusal", err)
 			}
+			// What is written below 54429 (the client has no lower bound on the negotiated revision):
+			// id, client info from 54420 on, NO settings but their terminator, stage, compression, body.
+			e := &ref.Enc{}
+			e.UVarint(ref.ClientQueryCode, ref.RCount)
+			e.Str([]byte(rq.ID), ref.RPayload)
+			if rev >= 54420 {
+				ref.EncodeClientInfo(e, rq.Info, rev)
+			}
+			e.Str(nil, ref.RPayload)
+			e.UVarint(2, ref.RCount)
+			e.UVarint(rq.Compression, ref.RCount)
+			e.Str([]byte(rq.Body), ref.RPayload)
+			if !bytes.Equal(b.Buf, e.B) {
+				return fmt.Errorf("Query below 54429: bytes differ from the layout of that revision (first difference at %d of %d/%d bytes)", firstDiff(b.Buf, e.B), len(b.Buf), len(e.B))
+			}
 			return nil
 		}
 		var b proto.Buffer
